@@ -23,6 +23,7 @@ ALPHA = {
     "d": dict(name="Delta dim", items=["d0", "d1"]),
     "e": dict(name="Epsilon", items=[1, 2, 3, 4]),
     "f": dict(name="Phi dim", items=["f0", "f1", "f2"]),
+    "g": dict(name="Gimel", items=[]),  # a dimension may be empty (nothing selected yet); only used in histories
 }
 
 
@@ -196,7 +197,7 @@ class Pairs(Facet):
 
 # ------------------------------------------------------------------------- histories
 
-LET6 = "abcdef"
+LET6 = "abcdefg"
 step = st.fixed_dictionaries(
     {
         "op": st.sampled_from(
@@ -208,8 +209,8 @@ step = st.fixed_dictionaries(
         ),
         "i": st.integers(0, 7),
         "j": st.integers(0, 7),
-        "k": st.integers(0, 5),
-        "sel": st.lists(st.integers(0, 5), max_size=4),
+        "k": st.integers(0, 6),
+        "sel": st.lists(st.integers(0, 6), max_size=4),
         "inplace": st.booleans(),
         "clash": st.sampled_from([0, 0, 0, 1, 2]),
         "bin": st.sampled_from(["|", "&", "-", "^", "+"]),
